@@ -38,6 +38,7 @@ type lgStep struct {
 	Kind  string `json:"kind"`
 	Ok    bool   `json:"ok"`
 	Which string `json:"which"`
+	Base  int64  `json:"base"`
 }
 
 type lgSched struct {
@@ -734,6 +735,18 @@ func lgRunSchedule(t *testing.T, sc lgSched) (lines []map[string]any, hits map[s
 						}
 					}
 					r.emit(map[string]any{"src": "harness", "ev": "Crash"})
+				}
+			case "LoseIdx":
+				// fault injection: the .index object of a segment disappears while the broker is down
+				if !up {
+					s3.mu.Lock()
+					for key := range s3.idx {
+						if lgBaseOfKey(key) == st.Base {
+							delete(s3.idx, key)
+						}
+					}
+					s3.mu.Unlock()
+					r.emit(map[string]any{"src": "harness", "ev": "LoseIdx", "base": st.Base})
 				}
 			case "Restart":
 				if !up {
